@@ -24,7 +24,7 @@ Definition classified : list (N * site_class) :=
    (8016924973952875387%N, Guarded) (* slice_options.rs :: plugin_parser -- taken only after peek() returned Some (C19 model: the backslash look-ahead) *);
    (10783626966939343195%N, Guarded) (* slice_options.rs :: plugin_parser -- state Key/Value is entered only by pushing an argument pair (C19 model: acc invariant, proofs in Cli/PluginSpecProofs.v) *);
    (7504008054230275254%N, Guarded) (* slice_options.rs :: plugin_parser -- state Key/Value is entered only by pushing an argument pair (C19 model: acc invariant, proofs in Cli/PluginSpecProofs.v) *);
-   (10361148075781994776%N, Invariant) (* diagnostics/diagnostic.rs :: is_lint_allowed_by_attributes -- as above: every span names a compiled file; diagnostics from generators carry no span *);
+   (2485032129241881876%N, Invariant) (* diagnostics/diagnostic.rs :: into_updated (the site follows the helper find_in in the text) -- as above: every span names a compiled file; diagnostics from generators carry no span *);
    (8629041630888560645%N, Invariant) (* grammar/traits.rs :: get_module -- entities exist only in files with a module declaration: definitions without one are a syntax error and later phases are skipped (Syntax/Parser.v PdModuleRequired; token-soup stream) *);
    (14725657066975630259%N, Invariant) (* grammar/elements/type_ref.rs :: definition -- later phases run only when patching reported no error, and an error-free patch binds every reference (C03 model; fix 83baaeb removed the unpatched bases/underlying types) *);
    (8293306126473137574%N, Guarded) (* parsers/comments/grammar.rs :: sanitize_message_lines -- Message = MessageComponent+ is never empty (Doc/Comment.v opt_msg) *);
@@ -39,8 +39,8 @@ Definition classified : list (N * site_class) :=
    (1568729118032280678%N, Invariant) (* parsers/preprocessor/lexer.rs :: next -- start location and position are set when the mode becomes SourceBlock and taken only in that mode (C06 model, exhaustive lines) *);
    (15038574334494882199%N, Invariant) (* parsers/preprocessor/lexer.rs :: next -- start location and position are set when the mode becomes SourceBlock and taken only in that mode (C06 model, exhaustive lines) *);
    (1568728018520652467%N, Invariant) (* parsers/preprocessor/lexer.rs :: next -- start location and position are set when the mode becomes SourceBlock and taken only in that mode (C06 model, exhaustive lines) *);
-   (14003918240159911478%N, Invariant) (* parsers/slice/grammar.rs :: primitive_to_type_ref_definition -- Ast::create defines every primitive under its keyword *);
-   (9781887821541066439%N, Invariant) (* parsers/slice/grammar.rs :: primitive_to_type_ref_definition -- Ast::create defines every primitive under its keyword *);
+   (14976374606307742728%N, Invariant) (* parsers/slice/grammar.rs :: primitive_to_type_ref_definition -- Ast::create puts every primitive among the AST's elements and elements are never removed (the site used to read the lookup table, where a module named like the primitive could take its place: fix 21e7062) *);
+   (9781887821541066439%N, Invariant) (* parsers/slice/grammar.rs :: primitive_to_type_ref_definition -- the node was selected by matching Node::Primitive *);
    (1648890451669158098%N, Invariant) (* parsers/slice/mod.rs :: construct_error_from -- LALRPOP with an external lexer produces only User, UnrecognizedToken and UnrecognizedEof errors *);
    (15683795781569734881%N, Guarded) (* parsers/slice/mod.rs :: generate_message -- the match arm binds a slice of at least three elements *);
    (6577567016631682070%N, Invariant) (* patchers/comment_link_patcher.rs :: macro patch_link -- compute_patches_for and apply_patches traverse the same nodes and the same links in the same order: one queue entry per link (Doc/Comment.v doc_links; C16 stream) *);
